@@ -41,6 +41,9 @@ M = [
     ("C19-metadata-dropped", "C19", "passage-adapters/grpc/src/proto.rs", "            meta: value\n                .meta\n                .into_iter()\n                .map(|entry| (entry.key, entry.value))\n                .collect(),", "            meta: Default::default(),"),
     ("C20-allocated-not-offered", "C20", "passage-adapters/agones/src/discovery_adapter.rs", '(state == "Ready" || state == "Allocated").then_some(target)', '(state == "Ready").then_some(target)'),
     ("C20-wrong-entry-removed", "C20", "passage-adapters/agones/src/discovery_adapter.rs", "targets.swap_remove(found);", "targets.swap_remove(0);"),
+    # patch-based mutants (file = None, old = patch under tools/mutants/)
+    ("C08-frame-buffer-per-thread", "C08", None, "tools/mutants/C08-frame-buffer-per-thread.diff", None),
+    ("C16-frame-buffer-per-thread", "C16", None, "tools/mutants/C08-frame-buffer-per-thread.diff", None),
     ("C20-update-not-applied", "C20", "passage-adapters/agones/src/discovery_adapter.rs", "Some(found) => *found = target,", "Some(_) => {}"),
 ]
 
@@ -55,14 +58,23 @@ def main():
     for name, prop, path, old, new in M:
         if only and name not in only:
             continue
-        full = f"/repo/{path}"
-        src = open(full).read()
-        if src.count(old) != 1:
+        if path is None:
+            if sh(f"git -C /repo apply /verif/{old}").returncode != 0:
+                rec = {"mutant": name, "property": prop, "error": "patch does not apply"}
+                open("/verif/mutants_results.jsonl", "a").write(json.dumps(rec) + "\n")
+                print(rec, flush=True)
+                continue
+            full, src, path = None, None, old
+        else:
+            full = f"/repo/{path}"
+            src = open(full).read()
+        if full and src.count(old) != 1:
             rec = {"mutant": name, "property": prop, "error": f"pattern occurs {src.count(old)} times"}
             open("/verif/mutants_results.jsonl", "a").write(json.dumps(rec) + "\n")
             print(rec, flush=True)
             continue
-        open(full, "w").write(src.replace(old, new))
+        if full:
+            open(full, "w").write(src.replace(old, new))
         try:
             t = sh("cd /repo && cargo test --workspace --no-fail-fast --offline 2>&1 | grep -E '^test result|error(\\[|:)' | awk '/test result/ {p+=$4; f+=$6} /error/ {e+=1} END {print p+0\" \"f+0\" \"e+0}'")
             p, f, e = (t.stdout.split() + ["0", "0", "0"])[:3]
